@@ -387,6 +387,10 @@ def rule_v7(ctx) -> None:
             ctx.finding("C03-V7", "SynCmd.cmd_run.configure_argparser:default-threshold", cfgf.loc(c), "the `run` command defaults --min-confidence to %r, not 0: with default options low-confidence MCS results come back unsolved with their imputed molecules still in the reaction" % (v,))
 
 
+def pl_of(ctx) -> Pipeline:
+    return Pipeline(ctx)
+
+
 def _carbon_clause_shared(ctx) -> None:
     # V9: the carbon label that V4 relies on is computed on self-contained fragments (shared with C07-E12)
     from . import c07
@@ -402,3 +406,8 @@ def _carbon_clause_shared(ctx) -> None:
     # V12: a declined reaction is returned with its reason: the fault of its own work becomes its issue text and does
     # not escape to the batch level, where the row would be lost (shared with C06-B14)
     c06.rule_b14(ctx, ctx.pipeline_reachable(), "C03-V12")
+    # V13: what a declined row is reset to is this run's input: input_reaction is a copy of the reaction column taken
+    # right after atom-map removal, by a single writer (shared with C02-T2)
+    from . import c02
+
+    c02.rule_t2(ctx, pl_of(ctx), "C03-V13")
